@@ -1161,13 +1161,38 @@ def _on_empty_literal(n):
     return False
 
 
+def _first_ifexp(n):
+    """first conditional expression inside n (not inside lambdas / comprehensions / call arguments of unknown functions)"""
+    if isinstance(n, ast.IfExp):
+        return n
+    if isinstance(n, (ast.Tuple, ast.List)):
+        for e in n.elts:
+            r = _first_ifexp(e)
+            if r is not None:
+                return r
+    if isinstance(n, ast.BinOp):
+        return _first_ifexp(n.left) or _first_ifexp(n.right)
+    return None
+
+
+def _subst_node(root, old, new):
+    if root is old:
+        return new
+    if isinstance(root, (ast.Tuple, ast.List)):
+        return type(root)(elts=[_subst_node(e, old, new) for e in root.elts], ctx=ast.Load())
+    if isinstance(root, ast.BinOp):
+        return ast.BinOp(left=_subst_node(root.left, old, new), op=root.op, right=_subst_node(root.right, old, new))
+    return root
+
+
 def _split_ifexp(summ, alts, env, pc, depth=0):
-    """`x = a if c else b` defines two gated alternatives"""
+    """`x = a if c else b` (also inside a tuple / binary expression) defines two gated alternatives"""
     out = []
     for g, n in alts:
-        if isinstance(n, ast.IfExp) and depth < 4:
-            c = summ.truth(n.test, summ._cur_frame)
-            out.extend(_split_ifexp(summ, [(conj(g, c), n.body), (conj(g, neg(c)), n.orelse)], env, pc, depth + 1))
+        ie = _first_ifexp(n) if n is not None and depth < 4 else None
+        if ie is not None:
+            c = summ.truth(ie.test, summ._cur_frame)
+            out.extend(_split_ifexp(summ, [(conj(g, c), _subst_node(n, ie, ie.body)), (conj(g, neg(c)), _subst_node(n, ie, ie.orelse))], env, pc, depth + 1))
         else:
             out.append((g, n))
     return [(g, n) for g, n in out if g is not False]
